@@ -34,6 +34,7 @@ import (
 	"github.com/lightningnetwork/lnd/keychain"
 	"github.com/lightningnetwork/lnd/lnrpc/signrpc"
 	"github.com/lightningnetwork/lnd/lnrpc/verrpc"
+	"github.com/lightningnetwork/lnd/lnrpc/walletrpc"
 	"github.com/lightningnetwork/lnd/lnwallet/btcwallet"
 	"github.com/lightningnetwork/lnd/lnwallet/chainfee"
 )
@@ -451,6 +452,88 @@ func (w *c04Wallet) SignPsbt(_ context.Context, packet *psbt.Packet) (*psbt.Pack
 	return packet, nil
 }
 
+var c04WalletUtxo = wire.OutPoint{Hash: [32]byte{7, 7}, Index: 3}
+
+const c04WalletUtxoValue = 10_000_000
+
+func (w *c04Wallet) walletScript() []byte {
+	s, err := txscript.NewScriptBuilder().AddOp(txscript.OP_0).
+		AddData(btcutil.Hash160(w.priv.PubKey().SerializeCompressed())).Script()
+	if err != nil {
+		panic(err)
+	}
+	return s
+}
+
+// FundPsbt plays lnd's coin selection: one p2wkh wallet input and a change
+// output are added to the template.
+func (w *c04Wallet) FundPsbt(_ context.Context, req *walletrpc.FundPsbtRequest) (*psbt.Packet, int32,
+	[]*walletrpc.UtxoLease, error) {
+
+	tpl, err := psbt.NewFromRawBytes(bytes.NewReader(req.GetPsbt()), false)
+	if err != nil {
+		return nil, 0, nil, err
+	}
+	tx := tpl.UnsignedTx.Copy()
+	var out int64
+	for _, o := range tx.TxOut {
+		out += o.Value
+	}
+	if out+2000 > c04WalletUtxoValue {
+		return nil, 0, nil, errors.New("insufficient funds")
+	}
+	tx.TxIn = append(tx.TxIn, &wire.TxIn{PreviousOutPoint: c04WalletUtxo})
+	tx.TxOut = append(tx.TxOut, &wire.TxOut{Value: c04WalletUtxoValue - out - 1000, PkScript: w.walletScript()})
+	packet, err := psbt.NewFromUnsignedTx(tx)
+	if err != nil {
+		return nil, 0, nil, err
+	}
+	packet.Inputs[0].WitnessUtxo = &wire.TxOut{Value: c04WalletUtxoValue, PkScript: w.walletScript()}
+	packet.Inputs[0].SighashType = txscript.SigHashAll
+	return packet, int32(len(tx.TxOut) - 1), nil, nil
+}
+
+func (w *c04Wallet) ReleaseOutput(context.Context, wtxmgr.LockID, wire.OutPoint) error { return nil }
+
+// FinalizePsbt signs the wallet's own p2wkh inputs and extracts the tx.
+func (w *c04Wallet) FinalizePsbt(_ context.Context, packet *psbt.Packet, _ string) (*psbt.Packet,
+	*wire.MsgTx, error) {
+
+	tx := packet.UnsignedTx
+	fetcher := txscript.NewMultiPrevOutFetcher(nil)
+	for i, in := range tx.TxIn {
+		if packet.Inputs[i].WitnessUtxo == nil {
+			return nil, nil, fmt.Errorf("input %d without utxo", i)
+		}
+		fetcher.AddPrevOut(in.PreviousOutPoint, packet.Inputs[i].WitnessUtxo)
+	}
+	sh := txscript.NewTxSigHashes(tx, fetcher)
+	for i := range tx.TxIn {
+		in := &packet.Inputs[i]
+		if len(in.FinalScriptWitness) > 0 {
+			continue
+		}
+		if !bytes.Equal(in.WitnessUtxo.PkScript, w.walletScript()) {
+			return nil, nil, fmt.Errorf("input %d is not ours", i)
+		}
+		wit, err := txscript.WitnessSignature(tx, sh, i, in.WitnessUtxo.Value, in.WitnessUtxo.PkScript,
+			txscript.SigHashAll, w.priv, true)
+		if err != nil {
+			return nil, nil, err
+		}
+		var buf bytes.Buffer
+		if err := psbt.WriteTxWitness(&buf, wit); err != nil {
+			return nil, nil, err
+		}
+		in.FinalScriptWitness = buf.Bytes()
+	}
+	if err := psbt.MaybeFinalizeAll(packet); err != nil {
+		return nil, nil, err
+	}
+	final, err := psbt.Extract(packet)
+	return packet, final, err
+}
+
 type c04Store struct {
 	acct         *account.Account
 	pendingAsked bool
@@ -494,7 +577,7 @@ func (a *c04Auctioneer) StartAccountSubscription(context.Context, *keychain.KeyD
 	return nil
 }
 func (a *c04Auctioneer) Terms(context.Context) (*terms.AuctioneerTerms, error) {
-	return nil, errors.New("unused")
+	return &terms.AuctioneerTerms{MaxAccountValue: 10_0000_0000}, nil
 }
 
 func (a *c04Auctioneer) ModifyAccount(_ context.Context, acct *account.Account,
@@ -576,7 +659,8 @@ type c04Spend struct {
 	tx       *wire.MsgTx // input 0 spends the account output, witness set
 	idx      int
 	sigs     []*c04SigRec
-	buildErr string // Pool refused to build the spend
+	prevOuts []*wire.TxOut // outputs spent by the other inputs (nil = default)
+	buildErr string        // Pool refused to build the spend
 	poolWit  bool   // the witness was assembled by Pool's Spend* functions
 }
 
@@ -779,6 +863,13 @@ func c04Manager(p *c04Params) *c04Spend {
 	case "renew":
 		_, tx, err = mgr.RenewAccount(context.Background(), acct.TraderKey.PubKey,
 			p.LockTime+2000, feeRate, p.LockTime, newVersion)
+	case "deposit":
+		newExpiry := uint32(0)
+		if p.NewExpiryDelta != 0 {
+			newExpiry = p.LockTime + p.NewExpiryDelta
+		}
+		_, tx, err = mgr.DepositAccount(context.Background(), acct.TraderKey.PubKey, 250_000, feeRate,
+			p.LockTime, newExpiry, newVersion)
 	case "withdraw":
 		newExpiry := uint32(0)
 		if p.NewExpiryDelta != 0 {
@@ -794,9 +885,12 @@ func c04Manager(p *c04Params) *c04Spend {
 	}
 	sp.tx = tx
 	sp.idx = 0
+	sp.prevOuts = make([]*wire.TxOut, len(tx.TxIn))
 	for i, in := range tx.TxIn {
 		if in.PreviousOutPoint == acct.OutPoint {
 			sp.idx = i
+		} else {
+			sp.prevOuts[i] = &wire.TxOut{Value: c04WalletUtxoValue, PkScript: wallet.walletScript()}
 		}
 	}
 	c04Describe(sp, sk, int64(sk.value))
@@ -1255,7 +1349,7 @@ func c04Run(r *Run, p *c04Params) {
 		switch p.Path {
 		case "direct":
 			sp = c04Direct(p)
-		case "close", "renew", "withdraw":
+		case "close", "renew", "withdraw", "deposit":
 			sp = c04Manager(p)
 		default:
 			sp = &c04Spend{buildErr: "unknown path"}
@@ -1270,11 +1364,12 @@ func c04Run(r *Run, p *c04Params) {
 		// where it must refuse.
 		// (withdrawals from an expired account are documented as unsupported)
 		sk := p.signKeys()
-		expectRefusal := p.Path == "withdraw" && (p.StateExpired || p.LockTime >= sk.expiry)
+		expectRefusal := (p.Path == "withdraw" || p.Path == "deposit") &&
+			(p.StateExpired || p.LockTime >= sk.expiry)
 		if !expectRefusal {
 			r.Violate("Pool could not build the spend: "+sp.buildErr, "C04/build-error", p)
 		} else {
-			r.Count("refused/withdraw-expired")
+			r.Count("refused/" + p.Path + "-expired")
 			if !p.StateExpired {
 				r.Emit(fmt.Sprintf("C04 mgrlock %d %d %d %d 0", p.Version, account.StateOpen, sk.expiry, p.LockTime), "err")
 				r.Count("mgrlock")
@@ -1282,7 +1377,7 @@ func c04Run(r *Run, p *c04Params) {
 		}
 		return
 	}
-	if p.Path == "withdraw" {
+	if p.Path == "withdraw" || p.Path == "deposit" {
 		sk := p.signKeys()
 		r.Emit(fmt.Sprintf("C04 mgrlock %d %d %d %d 0", p.Version, account.StateOpen, sk.expiry, p.LockTime),
 			fmt.Sprintf("%d %d", sp.tx.LockTime, sp.tx.TxIn[sp.idx].Sequence))
@@ -1304,7 +1399,7 @@ func c04Run(r *Run, p *c04Params) {
 	if p.Path == "direct" {
 		amount = c04Amount
 	}
-	c04Judge(r, p, p, ck, sp, amount, nil)
+	c04Judge(r, p, p, ck, sp, amount, sp.prevOuts)
 }
 
 // c04Judge runs the real engine on input sp.idx of sp.tx against the chain
@@ -1403,7 +1498,7 @@ func c04Judge(r *Run, p *c04Params, replay interface{}, ck *c04Keys, sp *c04Spen
 	default:
 		expect, what = "valid", "a spend signed by trader and auctioneer must be valid at any lock time"
 	}
-	if (p.Path == "close" || p.Path == "renew" || p.Path == "withdraw") && !foreign && expect == "invalid" &&
+	if (p.Path == "close" || p.Path == "renew" || p.Path == "withdraw" || p.Path == "deposit") && !foreign && expect == "invalid" &&
 		!(p.StateExpired && p.LockTime < p.Expiry) {
 		// Pool's own spend of its own account must be valid, except in the
 		// stated corner (State == Expired handed a best height below expiry)
@@ -1502,8 +1597,10 @@ func c04Gen(r *Run) *c04Params {
 		p.Path = "close"
 	case x < 70:
 		p.Path = "renew"
-	case x < 80:
+	case x < 76:
 		p.Path = "withdraw"
+	case x < 82:
+		p.Path = "deposit"
 	default:
 		p.Path = "batch"
 	}
@@ -1539,7 +1636,7 @@ func c04Gen(r *Run) *c04Params {
 				p.LockTime = p.Expiry - 1
 			}
 		}
-	case "withdraw":
+	case "withdraw", "deposit":
 		p.Kind = "manager"
 		if r.Rng.Intn(3) != 0 && p.LockTime >= p.Expiry {
 			p.LockTime = p.Expiry - 1
@@ -1580,7 +1677,7 @@ func c04Gen(r *Run) *c04Params {
 			p.Accts = append(p.Accts, a)
 		}
 	}
-	if p.Path == "renew" || p.Path == "withdraw" {
+	if p.Path == "renew" || p.Path == "withdraw" || p.Path == "deposit" {
 		p.NewVersion = p.Version
 		if r.Rng.Intn(3) == 0 {
 			p.NewVersion = p.Version + uint8(r.Rng.Intn(int(3-p.Version)))
